@@ -53,19 +53,20 @@ def compare(S, ev, prev=None):
     # ---- always: account totals, getters on unknown ids, internal relations --------------------------------
     if post["other"] != 0:
         bad("C01:other-currency", "other currency balances moved: %s" % post["other"])
-    if not isinstance(post["acctEq"], int) or post["acctEq"] != sum(post["teq"].values()):
+    npf = max(1, len(post["created"]))       # each figure is a float rounded to a mil separately: one mil per summand
+    if not isinstance(post["acctEq"], int) or abs(post["acctEq"] - sum(post["teq"].values())) > npf:
         bad("C01:account-equity", "account total equity %s, per-portfolio figures %s" % (post["acctEq"], post["teq"]), cascade=False)
-    if not isinstance(post["acctMv"], int) or post["acctMv"] != sum(post["tmv"].values()):
+    if not isinstance(post["acctMv"], int) or abs(post["acctMv"] - sum(post["tmv"].values())) > npf:
         bad("C01:account-market-value", "account total market value %s, per-portfolio figures %s" % (post["acctMv"], post["tmv"]),
             cascade=False)
     exp_unk = dict(cash="ValueError", tmv="KeyError", teq="KeyError", dict="KeyError", ccy="ValueError")
     if post["unk"] != exp_unk:
         bad("C15:getter-errtype", "getters on unknown ids raised %s, expected %s" % (post["unk"], exp_unk), cascade=False)
     for p in post["created"]:
-        if post["teq"][p] != post["cash"][p] + post["tmv"][p]:
+        if abs(post["teq"][p] - (post["cash"][p] + post["tmv"][p])) > 1:
             bad("C02:equity", "total equity[%s] %s != cash %s + market value %s" % (p, post["teq"][p], post["cash"][p], post["tmv"][p]),
                 cascade=False)
-        if post["tmv"][p] != sum(v["mv"] for v in post["hold"][p].values()):
+        if abs(post["tmv"][p] - sum(v["mv"] for v in post["hold"][p].values())) > max(1, len(post["hold"][p])):
             bad("C02:mv-total", "total market value[%s] %s != sum of holdings %s" % (p, post["tmv"][p], post["hold"][p]), cascade=False)
     if post["now"] != S["now"]:
         bad("MODEL:now", "broker clock %s, expected %s" % (post["now"], S["now"]))
